@@ -28,6 +28,8 @@ pub enum K {
     Str,
     Ptr,
     Size,
+    /// only as the kind of an argument expression (`*a < 3`), never of a field
+    Bool,
 }
 
 impl K {
@@ -38,6 +40,7 @@ impl K {
             K::Str => "&'static str",
             K::Ptr => "&'static i32",
             K::Size => "usize",
+            K::Bool => "bool",
         }
     }
     /// type strings (`ty` of the placeholder) the kind can be formatted with
@@ -47,6 +50,7 @@ impl K {
             K::Float => &["", "?", "e", "E"],
             K::Str => &["", "?", "x?"],
             K::Ptr => &["p", "", "?", "p"],
+            K::Bool => &["", "?"],
         }
     }
     pub fn value(self, i: usize, d: &mut Dice) -> String {
@@ -59,6 +63,7 @@ impl K {
             K::Str => format!("\"{}{}\"", ["s", "héllo wörld ", "", "a\\nb"][d.pick(4)], i),
             K::Ptr => format!("&N{}", i % 4),
             K::Size => format!("{}", [3usize, 0, 11, 7][d.pick(4)] + i),
+            K::Bool => ["true", "false"][d.pick(2)].to_string(),
         }
     }
 }
@@ -84,8 +89,13 @@ pub struct ArgE {
 }
 
 pub fn arg_expr(f: &Field, d: &mut Dice) -> (String, K, bool) {
+    arg_expr_in(f, d, false)
+}
+
+/// `self_reads`: the type is a struct, so `self.<member>` is a valid expression (the statement: "`self` is the value")
+pub fn arg_expr_in(f: &Field, d: &mut Dice, self_reads: bool) -> (String, K, bool) {
     let n = &f.name;
-    let forms: Vec<(String, K, bool)> = match f.kind {
+    let mut forms: Vec<(String, K, bool)> = match f.kind {
         K::Int => vec![
             (n.clone(), K::Int, true),
             (format!("*{n}"), K::Int, false),
@@ -93,17 +103,34 @@ pub fn arg_expr(f: &Field, d: &mut Dice) -> (String, K, bool) {
             (format!("(*{n} as i64) * 2"), K::Int, false),
             (format!("format_args!(\"<{{}}>\", {n})"), K::Str, false),
             ("self.tag()".to_string(), K::Int, false),
+            // expression shapes beyond a method call: reference, literal, generic paths (turbofish, qualified path),
+            // a top-level comparison, block, `if`, closure call
+            (format!("&{n}"), K::Int, false),
+            ("7".to_string(), K::Int, false),
+            (format!("i64::from(*{n})"), K::Int, false),
+            (format!("core::cmp::max::<i32>(*{n}, 3)"), K::Int, false),
+            (format!("<i32 as Into<i64>>::into(*{n})"), K::Int, false),
+            (format!("*{n} < 3"), K::Bool, false),
+            (format!("{{ let t = *{n}; t }}"), K::Int, false),
+            (format!("if *{n} > 0 {{ 1 }} else {{ 2 }}"), K::Int, false),
+            (format!("(|a: i32, b: i32| a.wrapping_add(b))(*{n}, 1)"), K::Int, false),
         ],
         K::Float => vec![
             (n.clone(), K::Float, true),
             (format!("*{n} * 2.0"), K::Float, false),
             (format!("{n}.floor()"), K::Float, false),
+            (format!("&{n}"), K::Float, false),
+            (format!("f64::max(*{n}, 0.5)"), K::Float, false),
+            (format!("*{n} > 1.0"), K::Bool, false),
         ],
         K::Str => vec![
             (n.clone(), K::Str, true),
             (format!("{n}.len()"), K::Size, false),
             (format!("{n}.to_uppercase()"), K::Str, false),
             (format!("format_args!(\"[{{}}, {{}}]\", {n}, 1)"), K::Str, false),
+            (format!("&{n}"), K::Str, false),
+            ("\"lit\"".to_string(), K::Str, false),
+            (format!("{n}.chars().rev().collect::<String>()"), K::Str, false),
         ],
         K::Ptr => vec![
             (n.clone(), K::Ptr, true),
@@ -114,9 +141,21 @@ pub fn arg_expr(f: &Field, d: &mut Dice) -> (String, K, bool) {
             (n.clone(), K::Size, true),
             (format!("*{n}"), K::Size, false),
             (format!("{n} + 1"), K::Size, false),
+            (format!("usize::min(*{n}, 9)"), K::Size, false),
+            (format!("core::cmp::max::<usize>(*{n}, 1)"), K::Size, false),
         ],
+        K::Bool => vec![(n.clone(), K::Bool, true)],
     };
-    forms[d.pick(forms.len())].clone()
+    if self_reads {
+        // reads the value through `self` (not through the field binding)
+        forms.push((format!("self.{}", f.member), f.kind, false));
+        if f.kind == K::Int {
+            forms.push((format!("self.{}.wrapping_mul(3)", f.member), K::Int, false));
+        }
+    }
+    // the bare field binding keeps a fixed share however many expression shapes there are
+    let k = if d.chance(18) { 0 } else { d.pick(forms.len()) };
+    forms[k].clone()
 }
 
 pub struct Shape {
@@ -135,6 +174,13 @@ pub fn gen_fields(d: &mut Dice, min: usize, max: usize) -> (bool, Vec<Field>) {
         let kind = [K::Int, K::Str, K::Float, K::Ptr, K::Size][d.weighted(&[5, 3, 2, 2, 2])];
         let (name, member) = if named { (pool[i].to_string(), pool[i].to_string()) } else { (format!("_{i}"), format!("{i}")) };
         fields.push(Field { name, member, kind });
+    }
+    if named && d.chance(15) {
+        // field names that coincide with names a `fmt` implementation typically uses itself (formatter parameter)
+        let k = d.pick(fields.len());
+        let n = ["f", "fmt"][d.pick(2)];
+        fields[k].name = n.to_string();
+        fields[k].member = n.to_string();
     }
     (named, fields)
 }
@@ -201,24 +247,28 @@ fn build(d: &mut Dice) -> GenCase {
     let mut args: Vec<ArgE> = vec![];
     for _ in 0..np {
         let f = &fields[d.pick(fields.len())];
-        let (expr, kind, bare) = arg_expr(f, d);
+        let (expr, kind, bare) = arg_expr_in(f, d, !is_enum);
         args.push(ArgE { alias: None, expr, kind, bare_field: bare });
     }
     let alias_pool = ["k", "v", "al", "n2"];
     for j in 0..nn {
         let f = &fields[d.pick(fields.len())];
-        let (expr, kind, bare) = arg_expr(f, d);
-        // sometimes alias a field name (shadows the field inside the literal)
-        let alias = if d.chance(12) && named { fields[d.pick(fields.len())].name.clone() } else { alias_pool[j].to_string() };
+        let (expr, kind, bare) = arg_expr_in(f, d, !is_enum);
+        // sometimes alias a field name (shadows the field inside the literal): `a = ..`, `r#type = ..`, `_0 = ..`
+        let alias = if d.chance(12) { fields[d.pick(fields.len())].name.clone() } else { alias_pool[j].to_string() };
         if args.iter().any(|a| a.alias.as_deref() == Some(alias.as_str())) {
             continue;
         }
         args.push(ArgE { alias: Some(alias), expr, kind, bare_field: bare });
     }
     let np = args.iter().filter(|a| a.alias.is_none()).count();
-    let size_pos: Vec<usize> = (0..np).filter(|i| args[*i].kind == K::Size && !args[*i].bare_field).collect();
-    let size_names: Vec<String> = args.iter().filter(|a| a.kind == K::Size && !a.bare_field).filter_map(|a| a.alias.as_ref().map(|n| unraw(n))).collect();
     let aliased: Vec<String> = args.iter().filter_map(|a| a.alias.as_ref().map(|n| unraw(n))).collect();
+    // `N$` / `name$` counts: `usize` arguments (expressions and bare field bindings alike) and `usize` fields named
+    // directly in the literal (repo test `{field:<>width$.prec$}`)
+    let size_pos: Vec<usize> = (0..np).filter(|i| args[*i].kind == K::Size).collect();
+    let mut size_names: Vec<String> = args.iter().filter(|a| a.kind == K::Size).filter_map(|a| a.alias.as_ref().map(|n| unraw(n))).collect();
+    let size_field_names: Vec<String> = fields.iter().filter(|f| f.kind == K::Size).map(|f| unraw(&f.name)).filter(|n| !aliased.contains(n)).collect();
+    size_names.extend(size_field_names.iter().cloned());
 
     // pieces: every argument must be used at least once
     let mut pieces: Vec<Piece> = vec![];
@@ -309,7 +359,13 @@ fn build(d: &mut Dice) -> GenCase {
             None => a.expr.clone(),
         })
         .collect();
-    let attr_args = if args_src.is_empty() { lit_tok.clone() } else { format!("{lit_tok}, {}", args_src.join(", ")) };
+    // a trailing comma after the literal / the last argument is accepted, as by `format!`
+    let trailing_comma = d.chance(8);
+    let attr_args = format!("{}{}", if args_src.is_empty() { lit_tok.clone() } else { format!("{lit_tok}, {}", args_src.join(", ")) }, if trailing_comma { "," } else { "" });
+    // an enum-level format that does not mention `_variant` is only a default for variants *without* an attribute of
+    // their own (display.md, "Default enum format"): it must not change what this variant prints
+    let shared_default = is_enum && tr != "Debug" && d.chance(35);
+    let shared_line = if shared_default { format!("#[{attr}(\"<shared default {{}}>\", 0)]\n") } else { String::new() };
 
     // names used directly in the literal (placeholder names and `$` names) that are fields and not aliased
     let mut named_in_lit: Vec<String> = vec![];
@@ -361,7 +417,7 @@ fn build(d: &mut Dice) -> GenCase {
     let body = if is_enum {
         format!(
             r#"#[derive(derive_more::{tr})]
-pub enum T {{
+{shared_line}pub enum T {{
     #[{attr}({attr_args})]
     V{decl_fields},
     #[{attr}("other")]
@@ -404,6 +460,34 @@ pub fn run(o: &mut Out) {{
     let nonbare = args.iter().any(|a| !a.bare_field);
     if star_used {
         labels.push("has_star_precision".into());
+    }
+    if shared_default {
+        labels.push("enum_level_default_format".into());
+    }
+    if trailing_comma {
+        labels.push("trailing_comma".into());
+    }
+    if fields.iter().any(|f| f.name == "f" || f.name == "fmt") {
+        labels.push("field_named_like_formatter".into());
+    }
+    if !named && args.iter().any(|a| a.alias.as_ref().is_some_and(|n| n.starts_with('_'))) {
+        labels.push("alias_shadows_positional_field".into());
+    }
+    if args.iter().any(|a| a.expr.contains("self.") && !a.expr.contains("self.tag()")) {
+        labels.push("argument_reads_self".into());
+    }
+    if args.iter().any(|a| ["&", "7", "\"lit\""].iter().any(|p| a.expr == *p || (p.len() == 1 && a.expr.starts_with(p))) || a.expr.contains("::<") || a.expr.contains(" as Into<") || a.expr.contains(" < ") || a.expr.contains(" > ") || a.expr.starts_with('{') || a.expr.starts_with("if ") || a.expr.starts_with("(|")) {
+        labels.push("rich_expression_argument".into());
+    }
+    {
+        let is_field_count = |c: &Cnt| match c {
+            Cnt::ParamName(n) => size_field_names.contains(n),
+            Cnt::ParamIdx(i) => args.get(*i).is_some_and(|a| a.bare_field),
+            _ => false,
+        };
+        if pieces.iter().any(|p| matches!(p, Piece::Ph(ph) if is_field_count(&ph.spec.width) || is_field_count(&ph.spec.prec))) {
+            labels.push("count_parameter_is_field".into());
+        }
     }
     if direct_fields > 0 {
         labels.push("field_named_in_literal".into());
@@ -507,31 +591,44 @@ fn build_implicit(d: &mut Dice) -> GenCase {
     }
 }
 
+/// the three ways to write a field-less struct / variant: `X`, `X()`, `X {}` (display.md: `struct UnitStruct {}` prints
+/// "UnitStruct"): (declaration suffix, value suffix, label)
+const EMPTY_SHAPES: [(&str, &str, &str); 3] = [("", "", "unit"), ("()", "()", "empty_tuple"), (" {}", " {}", "empty_braces")];
+
 fn build_unit(d: &mut Dice) -> GenCase {
-    let casing_attr = |c: &str| format!("#[display(rename_all = \"{c}\")]\n");
     if d.chance(35) {
-        // unit struct
+        // field-less struct, under each of the eight Display-like traits (the attribute is named after the trait)
+        let (tr, attr, tr_ty) = FMT_TRAITS[[0usize, 0, 0, 2, 3, 4, 5, 6, 7, 8][d.pick(10)]];
+        let casing_attr = |c: &str| format!("#[{attr}(rename_all = \"{c}\")]\n");
         let words = gen_words(d);
         let name = words.concat();
         let raw = d.chance(20);
         let ident = if raw { format!("r#{name}") } else { name.clone() };
         let case = if d.chance(70) { Some(CASINGS[d.pick(8)]) } else { None };
+        let (decl, val, shape_label) = EMPTY_SHAPES[d.weighted(&[3, 1, 1])];
+        let semi = if decl == " {}" { "" } else { ";" };
         let expected = case.map_or(name.clone(), |c| casing(&words, c));
-        let attr = case.map_or(String::new(), casing_attr);
+        let attr_line = case.map_or(String::new(), casing_attr);
+        let outer = if tr_ty.is_empty() { "{}".to_string() } else { format!("{{:{tr_ty}}}") };
         let body = format!(
-            "#[derive(derive_more::Display)]\n{attr}pub struct {ident};\npub fn run(o: &mut Out) {{\n    o.eq(\"unit struct prints its name\", {expected:?}, &format!(\"{{}}\", {ident}));\n}}"
+            "#[derive(derive_more::{tr})]\n{attr_line}pub struct {ident}{decl}{semi}\npub fn run(o: &mut Out) {{\n    o.eq(\"unit struct prints its name\", {expected:?}, &format!(\"{outer}\", {ident}{val}));\n}}"
         );
         let mut c = GenCase::new(body);
-        c.labels = vec!["implicit_unit_struct".into()];
+        c.labels = vec!["implicit_unit_struct".into(), format!("trait={tr}"), format!("empty_shape={shape_label}")];
+        if tr != "Display" {
+            c.labels.push("implicit_unit_struct_non_display_trait".into());
+        }
         if let Some(cs) = case {
             c.labels.push(format!("rename_all={cs}"));
         }
         if raw {
             c.labels.push("raw_ident_name".into());
         }
-        c.nontrivial = case.is_some() || raw;
+        c.nontrivial = case.is_some() || raw || tr != "Display" || shape_label != "unit";
         c
     } else {
+        // (implicit formatting of a field-less variant is documented for `Display` only)
+        let casing_attr = |c: &str| format!("#[display(rename_all = \"{c}\")]\n");
         let enum_case = if d.chance(60) { Some(CASINGS[d.pick(8)]) } else { None };
         let nv = d.range(1, 4);
         let mut variants = String::new();
@@ -547,6 +644,7 @@ fn build_unit(d: &mut Dice) -> GenCase {
             let raw = d.chance(15);
             let ident = if raw { format!("r#{name}") } else { name.clone() };
             let own = if d.chance(35) { Some(CASINGS[d.pick(8)]) } else { None };
+            let (decl, val, shape_label) = EMPTY_SHAPES[d.weighted(&[4, 1, 1])];
             let eff = own.or(enum_case);
             let expected = eff.map_or(name.clone(), |c| casing(&words, c));
             if let Some(o) = own {
@@ -556,9 +654,12 @@ fn build_unit(d: &mut Dice) -> GenCase {
             if raw {
                 labels.push("raw_ident_name".into());
             }
-            variants.push_str(&format!("    {ident},\n"));
+            if shape_label != "unit" {
+                labels.push(format!("empty_shape={shape_label}"));
+            }
+            variants.push_str(&format!("    {ident}{decl},\n"));
             checks.push_str(&format!(
-                "    o.eq(\"unit variant {name} prints its (renamed) name\", {expected:?}, &format!(\"{{}}\", T::{ident}));\n"
+                "    o.eq(\"unit variant {name} prints its (renamed) name\", {expected:?}, &format!(\"{{}}\", T::{ident}{val}));\n"
             ));
         }
         let attr = enum_case.map_or(String::new(), casing_attr);
@@ -598,7 +699,7 @@ pub fn prop() -> DiceProp {
         build: build_any,
         fixed: no_fixed,
         classify,
-        rule: "struct or enum variant deriving one of the 9 fmt traits with a generated literal (text, escapes, placeholders with implicit/indexed/named arguments, fill/align/sign/#/0, width and precision incl. `$` parameters and `.*`, all 11 types) and an argument list (bare fields, aliases, expressions over the field bindings, self.method(), format_args!); oracle: reference method calling format! with the identical literal and arguments and the documented field bindings; non-trivial = literal has >=2 pieces, or a placeholder with flags, or a non-bare-field argument; distinct by program text".into(),
+        rule: "struct or enum variant deriving one of the 9 fmt traits with a generated literal (text, escapes, placeholders with implicit/indexed/named arguments, fill/align/sign/#/0, width and precision incl. `$` parameters and `.*`, all 11 types) and an argument list (bare fields, aliases, expressions over the field bindings, self.method(), format_args!); additionally: enum-level default format next to the variant's own attribute, fields named `f`/`fmt`, aliases shadowing `_0`, `$` counts taken from `usize` fields, trailing commas, arguments reading `self.<field>`, expression shapes with generic paths / comparisons / blocks / closures; attribute-less field-less structs (`X`, `X()`, `X {}`) under all 8 Display-like traits and variants (`V`, `V()`, `V {}`) with rename_all; oracle: reference method calling format! with the identical literal and arguments and the documented field bindings; non-trivial = literal has >=2 pieces, or a placeholder with flags, or a non-bare-field argument; distinct by program text".into(),
         assumptions: vec!["plain format! of the same toolchain is the reference".into()],
         floors: vec![
             ("placeholder_with_flags".into(), 0.2),
@@ -608,6 +709,12 @@ pub fn prop() -> DiceProp {
             ("implicit".into(), 0.1),
             ("has_star_precision".into(), 0.005),
             ("pointer_placeholder".into(), 0.02),
+            ("enum_level_default_format".into(), 0.05),
+            ("field_named_like_formatter".into(), 0.02),
+            ("rich_expression_argument".into(), 0.1),
+            ("argument_reads_self".into(), 0.03),
+            ("count_parameter_is_field".into(), 0.005),
+            ("implicit_unit_struct_non_display_trait".into(), 0.01),
         ],
         shards: 0,
     }
